@@ -71,6 +71,7 @@ func c03BuildScanModel(r *core.R, extra []string) *c03ScanModel {
 	m.labels = c03SortedLabels(c03CompareStrings(r.P, fi), extra)
 	for _, l := range append([]string{""}, m.labels...) {
 		x := c03NewDecoderInterp(r.P, c03Scenario{Elem: l})
+		x.Model = c03DecodedFieldsModel
 		paths := x.Run(fi, nil)
 		c03DumpPaths(r.P, fi, "element "+l, paths)
 		if x.Aborted != "" {
@@ -350,7 +351,13 @@ func c03T5(r *core.R) {
 				continue // reported by T2
 			}
 			pos = it.decode[0].Node.Pos()
-			stores, escapes := it.touches(obj, it.decode[0])
+			all, escapes := it.touches(obj, it.decode[0])
+			var stores []c03Event
+			for i := range all {
+				if !it.c03ValuePreservingStore(&all[i], obj) {
+					stores = append(stores, all[i])
+				}
+			}
 			switch {
 			case len(stores) > 0:
 				e := stores[0]
